@@ -108,7 +108,11 @@ func runC19(c *eng.Ctx) {
 		// error closure: completeStage with its own parameter
 		for _, s := range c.Some(fail, eng.CallTo(smT+".completeStage"), "completeStage(stageID, err)") {
 			args := eng.CallArgs(s.Instr.(*ssa.Call))
-			c.Check(args[1] == ssa.Value(fail.Params[0]), "error-forwarded", s.Instr, fail, "the error handler forwards its error to completeStage", "passes "+p.Desc(args[1]))
+			fwd := args[1] == ssa.Value(fail.Params[0])
+			if _, isParam := args[1].(*ssa.Parameter); isParam && !fwd {
+				fwd = eng.DependsOn(args[1], func(x ssa.Value) bool { return x == ssa.Value(fail.Params[0]) }) // through a helper's parameter
+			}
+			c.Check(fwd, "error-forwarded", s.Instr, fail, "the error handler forwards its error to completeStage", "passes "+p.DescUp(args[1]))
 		}
 		// 2. pending++ before execution
 		reg := c.One(f, eng.CallTo(smT+".executeStage"), "sm.executeStage")
@@ -182,7 +186,9 @@ func runC19(c *eng.Ctx) {
 			// handle closure must call execFn on every path
 			mc, ok := ta[0].(*ssa.MakeClosure)
 			okRun := false
-			if ok {
+			if eng.FuncOfValue(ta[0]) == execFn {
+				okRun = true // execFn itself is the task
+			} else if ok {
 				h := mc.Fn.(*ssa.Function)
 				okRun = p.MustPass(h, func(p *eng.Prog, in ssa.Instruction) bool {
 					cl, ok := in.(*ssa.Call)
@@ -326,7 +332,11 @@ func runC19(c *eng.Ctx) {
 			args := eng.CallArgs(s.Instr.(*ssa.Call))
 			fs := facts.At(s.Instr)
 			if len(facts.Find(fs, "ne", eng.DescIs("err"), eng.DescIs("nil"))) > 0 {
-				c.Check(args[1] == ssa.Value(f.Params[1]), fmt.Sprintf("error-sent[%d]", i), s.Instr, f, "on the failing path the response carries the error", "passes "+p.Desc(args[1]))
+				sent := args[1] == ssa.Value(f.Params[1])
+				if _, isParam := args[1].(*ssa.Parameter); isParam && !sent {
+					sent = eng.DependsOn(args[1], func(x ssa.Value) bool { return x == ssa.Value(f.Params[1]) }) // through a helper's parameter
+				}
+				c.Check(sent, fmt.Sprintf("error-sent[%d]", i), s.Instr, f, "on the failing path the response carries the error", "passes "+p.DescUp(args[1]))
 			}
 		}
 		// first decision in SendResponse after the CAS is on err: a non-nil error never yields a result set
